@@ -150,6 +150,9 @@ package internal
 //@ interface Reader method Read(self) (data, err)
 //@   #allocates
 
+//@ impl (*FileReader) Reader (f, k)
+//@   requires nonnil: f != nil
+
 // what identifies a reader to the file watcher
 //@ func (caFileReader).ID
 //@   ensures  key: result == ReaderKey(box(r, caFileReader))
